@@ -75,3 +75,9 @@ for m in CORPUS:
         m.old = "        if self.k > 0:\n            for node, left, right in self.tree.postorder:\n                x[node - self.taxa_count] = ("
         m.new = "        if self.k <= 0:\n            for node, left, right in self.tree.postorder:\n                x[node - self.taxa_count] = ("
         m.expect = [('C07.I', 'DifferenceNodeHeightTransform._inverse')]
+CORPUS += [
+    Mut('c07-ratio-transform-remembers-its-log-determinant', 'torchtree/evolution/tree_height_transform.py', 'GeneralNodeHeightTransform.log_abs_det_jacobian', 'return torch.log(…',
+        'if getattr(self, "_last_log_det", None) is not None:\n    return self._last_log_det\nreturn torch.log(y[..., self._det_indices] - self._bounds[self.taxa_count:-1]).sum(-1)',
+        expect=[('C07.S', 'GeneralNodeHeightTransform::log-determinant-is-a-function-of-its-arguments')],
+        more=[dict(scope='GeneralNodeHeightTransform._call', old='return heights', new='self._last_log_det = torch.log(heights[..., self._det_indices] - self._bounds[self.taxa_count:-1]).sum(-1)\nreturn heights')]),
+]
